@@ -37,22 +37,42 @@ func cBool(b bool) string {
 	return "false"
 }
 
-// cBytes prints a byte string as a Coq term of type bytes.
+// cBytes prints a byte string as a Coq term of type bytes. Long runs of one
+// byte are written with rep so that boundary-length payloads stay small.
 func cBytes(b []byte) string {
-	if len(b) > 64 {
-		// long runs of one byte are written with rep
-		same := true
-		for _, v := range b {
-			if v != b[0] {
-				same = false
-				break
+	if len(b) <= 512 {
+		return `(x "` + hx(b) + `")`
+	}
+	var parts []string
+	i := 0
+	lit := 0 // start of pending literal
+	flush := func(end int) {
+		for lit < end {
+			e := lit + 4096
+			if e > end {
+				e = end
 			}
-		}
-		if same {
-			return fmt.Sprintf("(rep %d %d)", len(b), b[0])
+			parts = append(parts, `x "`+hx(b[lit:e])+`"`)
+			lit = e
 		}
 	}
-	return `(x "` + hx(b) + `")`
+	for i < len(b) {
+		j := i
+		for j < len(b) && b[j] == b[i] {
+			j++
+		}
+		if j-i >= 128 {
+			flush(i)
+			parts = append(parts, fmt.Sprintf("rep %d %d", j-i, b[i]))
+			lit = j
+		}
+		i = j
+	}
+	flush(len(b))
+	if len(parts) == 1 {
+		return "(" + parts[0] + ")"
+	}
+	return "(" + strings.Join(parts, " ++ ") + ")%list"
 }
 
 // cGoBytes prints a Go []byte (nil-aware) as a term of type gobytes.
